@@ -63,7 +63,14 @@ def gen_query(rng, nq=None, max_q=6):
     if rng.random() < 0.3:
         flags = rng.choice([0x0000, 0x0100, 0x7FFF, 0x7800, 0x0110])
     nq = rng.choice([0, 1, 1, 1, 2, 3, max_q]) if nq is None else nq
-    qs = [question(gen_labels(rng)) for _ in range(nq)]
+    names = [gen_labels(rng) for _ in range(nq)]
+    if nq >= 2 and rng.random() < 0.3:
+        # the same name asked twice (adjacent or not), or names that differ in letter case only: still one answer each
+        for _ in range(rng.randrange(1, nq)):
+            i, j = rng.randrange(nq), rng.randrange(nq)
+            if i != j:
+                names[j] = [l.swapcase() if rng.random() < 0.4 else l for l in names[i]] if rng.random() < 0.5 else list(names[i])
+    qs = [question(n) for n in names]
     return header(id_, flags, nq) + b"".join(qs), id_, flags, qs
 
 
